@@ -48,6 +48,14 @@ CHECKS = {
                      'within idle-hold after each refusal, reach Established within idle_hold + one connection cycle, stay '
                      'Established for 3 hold times with no NOTIFICATION, and offer an OPEN byte-identical to a freshly booted agent.',
                 ref='7 C02', note=E1_NOTE),
+    'C03': dict(level='model_checking', engine='E1',
+                technique='exhaustive schedule enumeration (arrival gaps at the deadlines, all same-instant tie orders) on the real timers under a virtual clock',
+                text='For all 64 (configured, proposed) hold pairs and every arrival schedule up to the step bound over gaps just '
+                     'below / at / just above H/3 and H, both orders of an arrival that coincides with an expiry and every '
+                     'order of same-instant timer expiries are executed on the real objects; timestamped monitors check the '
+                     'H/3 keepalive bound, no early close, expiry exactly at last arrival + H with NOTIFICATION(4), H=0 '
+                     'silence, and the 240 s OpenSent limit.',
+                ref='7 C03', note=E1_NOTE),
 }
 
 NOT_YET = 'check not built yet in this session (see DESIGN.md section 7 for the plan); not claimed'
